@@ -8,11 +8,15 @@ import (
 )
 
 // Mutex replaces sync.Mutex; the zero value is an unlocked mutex.
+// A package-level Mutex outlives one execution: own is the execution it was last used in, and a
+// mutex met in another execution starts again from the zero value (unlocked, unregistered) - a
+// holder left behind by an execution that ended in a deadlock or an exit must not leak.
 type Mutex struct {
 	holder *Thread
 	lbl    string
 	last   string
 	reg    bool
+	own    *Sched
 }
 
 func (m *Mutex) keyString(s *Sched) string {
@@ -26,6 +30,9 @@ func (m *Mutex) keyString(s *Sched) string {
 func (m *Mutex) Lock() {
 	s := Cur
 	t := s.me()
+	if m.own != s {
+		*m = Mutex{own: s}
+	}
 	if !m.reg {
 		m.reg = true
 		m.lbl = s.newLabel("m")
@@ -62,11 +69,15 @@ type WaitGroup struct {
 	n   int
 	lbl string
 	reg bool
+	own *Sched
 }
 
 func (w *WaitGroup) keyString(s *Sched) string { return fmt.Sprintf("%s:%d", w.lbl, w.n) }
 
 func (w *WaitGroup) register(s *Sched) {
+	if w.own != s {
+		*w = WaitGroup{own: s}
+	}
 	if !w.reg {
 		w.reg = true
 		w.lbl = s.newLabel("w")
@@ -111,9 +122,13 @@ func (w *WaitGroup) Wait() {
 type Once struct {
 	mu   Mutex
 	done bool
+	own  *Sched
 }
 
 func (o *Once) Do(f func()) {
+	if o.own != Cur {
+		*o = Once{own: Cur} // a package-level Once starts undone in every execution
+	}
 	o.mu.Lock()
 	if o.done {
 		o.mu.Unlock()
@@ -131,11 +146,19 @@ func (o *Once) Do(f func()) {
 type RWMutex struct {
 	w, r    Mutex
 	readers int
+	own     *Sched
 }
 
-func (m *RWMutex) Lock()   { m.w.Lock() }
+func (m *RWMutex) fresh() {
+	if m.own != Cur {
+		*m = RWMutex{own: Cur}
+	}
+}
+
+func (m *RWMutex) Lock()   { m.fresh(); m.w.Lock() }
 func (m *RWMutex) Unlock() { m.w.Unlock() }
 func (m *RWMutex) RLock() {
+	m.fresh()
 	m.r.Lock()
 	m.readers++
 	if m.readers == 1 {
